@@ -12,6 +12,7 @@ import (
 	"math/rand"
 	"os"
 	"os/exec"
+	"regexp"
 	"runtime"
 	"sort"
 	"strconv"
@@ -501,6 +502,43 @@ func raceRun(body []byte) *core.Verdict {
 			seqErrs = append(seqErrs, fmt.Sprint(l.GetErrors()))
 		}
 	}
+	// a processed set in which a read-only query FAILS (two modules claim one namespace, so the instantiating module of
+	// their nodes cannot be named): the failure is an answer, and asking leaves the set as it was
+	nsSet := yang.NewModules()
+	nsSet.Parse(session.Texts["tgt"], "tgt.yang")
+	nsSet.Parse(session.Texts["tgt2"], "tgt2.yang")
+	nsSet.Process()
+	var nsNodes []*yang.Entry
+	for _, mn := range []string{"tgt", "tgt2"} {
+		if m := nsSet.Modules[mn]; m != nil {
+			e := yang.ToEntry(m)
+			nsNodes = append(nsNodes, e)
+			for _, c := range e.Dir {
+				nsNodes = append(nsNodes, c)
+				for _, cc := range c.Dir {
+					nsNodes = append(nsNodes, cc)
+				}
+			}
+		}
+	}
+	nsErrsBefore := []string{}
+	for _, e := range nsNodes {
+		nsErrsBefore = append(nsErrsBefore, fmt.Sprint(e.GetErrors()))
+	}
+	nsQuery := func() {
+		for i, e := range nsNodes {
+			if got := fmt.Sprint(e.GetErrors()); got != nsErrsBefore[i] {
+				report(fmt.Sprintf("GetErrors of %s changed under read-only queries: %s (before: %s)", e.Path(), got, nsErrsBefore[i]))
+			}
+			if i > 1 { // (the module entries themselves have no parent to ask)
+				if _, err := e.InstantiatingModule(); err == nil {
+					report("InstantiatingModule of " + e.Path() + " succeeds although two modules claim its namespace")
+				}
+			}
+			e.Namespace()
+			e.ReadOnly()
+		}
+	}
 	subTrees := func() {
 		// the entry trees of the submodules themselves are part of the processed set
 		for _, sn := range []string{"s4", "s6a", "s6b"} {
@@ -535,6 +573,9 @@ func raceRun(body []byte) *core.Verdict {
 				case 0: // reader: every read-only query of the statement
 					if i == 0 {
 						subTrees()
+					}
+					if i < 3 {
+						nsQuery()
 					}
 					k := 0
 					for _, l := range errLeaves { // error accessors on entries that carry several errors
@@ -614,6 +655,8 @@ func coldRun(body []byte) *core.Verdict {
 		{"bb-r1", "ib"},      // imported grouping and typedef, union
 		{"m6", "s6a", "s6b"}, // nested includes
 		{"cold-kinds"},       // notification, anyxml, anydata, action, list, case, must / when
+		{"oc-ext", "pp1"},    // a malformed posix-pattern (an error found while the type is resolved) ...
+		{"oc-ext", "pp2"},    // ... and the same one in another set, at another place
 	}
 	texts := func(id string) string {
 		if id == "cold-kinds" {
@@ -626,7 +669,34 @@ func coldRun(body []byte) *core.Verdict {
   feature f; extension e { argument a; } ck:e "x";
 }`
 		}
+		switch id {
+		case "oc-ext":
+			return `module openconfig-extensions { namespace "urn:oc-ext"; prefix oc-ext; extension posix-pattern { argument pattern; } }`
+		case "pp1":
+			return `module pp1 { namespace "urn:pp1"; prefix pp1; import openconfig-extensions { prefix o; }
+  leaf l { type string { o:posix-pattern "a(b"; } } }`
+		case "pp2":
+			return `module pp2 { namespace "urn:pp2"; prefix pp2; import openconfig-extensions { prefix o; }
+
+
+  container c { leaf deeper { type string { o:posix-pattern "a(b"; } } } }`
+		}
 		return session.Texts[id]
+	}
+	// every position in what a pipeline reports names a file of its own set
+	reFile := regexp.MustCompile(`([A-Za-z0-9_.-]+\.yang):\d+:\d+`)
+	foreign := func(g []string, dump string) string {
+		own := map[string]bool{}
+		for _, id := range g {
+			own[id+".yang"] = true
+		}
+		first := strings.SplitN(dump, "\n", 2)[0]
+		for _, m := range reFile.FindAllStringSubmatch(first, -1) {
+			if !own[m[1]] {
+				return m[0]
+			}
+		}
+		return ""
 	}
 	build := func(g []string) string {
 		ms := yang.NewModules()
@@ -642,7 +712,8 @@ func coldRun(body []byte) *core.Verdict {
 	for g := range pick {
 		pick[g] = groups[rng.Intn(len(groups))]
 	}
-	pick[0] = groups[len(groups)-1]
+	pick[0] = groups[len(groups)-3] // the rare statement kinds
+	pick[1], pick[2] = groups[len(groups)-2], groups[len(groups)-1]
 	got := make([]string, n)
 	start := make(chan struct{})
 	var wg sync.WaitGroup
@@ -658,6 +729,11 @@ func coldRun(body []byte) *core.Verdict {
 	wg.Wait()
 	v := &core.Verdict{OK: true, Class: "cold-start", NT: true, N: int64(2 * n)}
 	for g := 0; g < n; g++ {
+		if f := foreign(pick[g], got[g]); f != "" {
+			v.OK, v.Sig = false, "result-names-another-sets-source"
+			v.Detail = fmt.Sprintf("the pipeline over %v, run next to %d others, reports an error at %s, which is not a file of its set:\n%s", pick[g], n-1, f, strings.SplitN(got[g], "\n", 2)[0])
+			break
+		}
 		if want := build(pick[g]); got[g] != want {
 			v.OK, v.Sig = false, "result-differs-from-sequential"
 			v.Detail = fmt.Sprintf("the pipeline over %v, run next to %d others as the first thing in the process, reads differently from the same pipeline run alone afterwards", pick[g], n-1)
